@@ -25,7 +25,7 @@ ID = "C16"
 LEVEL = "exploration"
 RULE = (
     "per language: every string of length <= 4 (thorough 5) over a 19-symbol alphabet and every string of length <= 3 "
-    "(thorough 4) over an 12-symbol alphabet of exotic line separators, each lexed with and without comment filtering "
+    "(thorough 4) over an 12-symbol alphabet of exotic line separators, each lexed with and without comment filtering, in either order and the first setting once more "
     "(enumerated once); Hypothesis texts; corpus files whole, as random slices, with CRLF line ends. "
     "Non-trivial = the text has >= 2 lines and >= 2 kept tokens; distinct by (language, text)"
 )
